@@ -12,7 +12,7 @@ from concurrent.futures import ThreadPoolExecutor
 VERIF = os.path.dirname(os.path.dirname(os.path.abspath(__file__)))
 REPO = os.environ.get('VF_REPO', '/repo')
 OUT = os.path.join(VERIF, 'out')
-CACHE = os.path.join(OUT, 'cache')
+CACHE = os.environ.get('VF_CACHE') or os.path.join(OUT, 'cache')      # VF_CACHE: scratch cache for throw-away trees (tools/mutate.py)
 RT = os.path.join(VERIF, 'rt')
 GUARD = 'BOOSTORG_MSM_VERIF'
 
